@@ -34,8 +34,115 @@ def walkCells (store : List CellEntry) (pre : Bytes) (argsLen : Nat) (order : Or
     let p := getCells store pre argsLen order limit after f fot
     if p.objects.isEmpty then [] else p.objects ++ walkCells store pre argsLen order limit f fot fuel (some p.lastCursor)
 
+/-! ### bridging the statements to the generic paging lemmas of `Kv.Lemmas` -/
 
+private theorem sortedBy_of_strictSorted {α} {key : α → Bytes} {store : List α}
+    (hs : StrictSorted (store.map key)) : SortedBy key store := by
+  unfold StrictSorted at hs
+  rw [List.pairwise_map] at hs
+  exact hs
 
+private theorem fit_of_hyps {α} {key : α → Bytes} {store : List α} {pre : Bytes} {argsLen : Nat}
+    (hw : WellFormed (store.map key)) (hd : FitsDescStart (store.map key) pre argsLen) :
+    ∀ x ∈ store, startsWith pre (key x) = true →
+      bytesLt (pre ++ List.replicate (MAX_PREFIX_SEARCH_SIZE - argsLen) 255) (key x) = false := by
+  intro x hx hq
+  have hm : key x ∈ store.map key := List.mem_map_of_mem hx
+  exact descStart_not_lt hq (hd _ hm hq) (hw _ hm)
+
+private theorem getCells_eq (store : List CellEntry) (pre : Bytes) (argsLen : Nat) (order : Order)
+    (limit : Nat) (after : Option Bytes) (f : CellFilter) (fot : Bool) :
+    getCells store pre argsLen order limit after f fot =
+      ⟨pageObjs (·.key) store pre argsLen order limit after
+          (fun e => longEnough pre CELL_KEY_SUFFIX_LEN e.key && cellPasses f fot e),
+        ((pageObjs (·.key) store pre argsLen order limit after
+          (fun e => longEnough pre CELL_KEY_SUFFIX_LEN e.key && cellPasses f fot e)).getLast?.map
+            (·.key)).getD []⟩ := by
+  cases order <;> cases after <;> rfl
+
+private theorem getTxs_eq (store : List TxEntry) (allKeys : List Bytes) (pre : Bytes)
+    (argsLen : Nat) (order : Order) (limit : Nat) (after : Option Bytes) (f : TxFilter) :
+    getTxs store allKeys pre argsLen order limit after f =
+      ⟨pageObjs (·.key) store pre argsLen order limit after
+          (fun e => longEnough pre TX_KEY_SUFFIX_LEN e.key && txPasses allKeys f e),
+        ((pageObjs (·.key) store pre argsLen order limit after
+          (fun e => longEnough pre TX_KEY_SUFFIX_LEN e.key && txPasses allKeys f e)).getLast?.map
+            (·.key)).getD []⟩ := by
+  cases order <;> cases after <;> rfl
+
+private theorem walkCells_eq (store : List CellEntry) (pre : Bytes) (argsLen : Nat) (order : Order)
+    (limit : Nat) (f : CellFilter) (fot : Bool) (fuel : Nat) (after : Option Bytes) :
+    walkCells store pre argsLen order limit f fot fuel after =
+      walk (·.key) store pre argsLen order limit
+        (fun e => longEnough pre CELL_KEY_SUFFIX_LEN e.key && cellPasses f fot e) fuel after := by
+  induction fuel generalizing after with
+  | zero => rfl
+  | succ fuel ih =>
+    unfold walkCells walk
+    simp only [getCells_eq, ih]
+
+private theorem matchingCells_eq (store : List CellEntry) (pre : Bytes) (f : CellFilter)
+    (fot : Bool) :
+    matchingCells store pre f fot =
+      store.filter (fun e => (longEnough pre CELL_KEY_SUFFIX_LEN e.key && cellPasses f fot e) &&
+        startsWith pre e.key) := by
+  unfold matchingCells
+  apply List.filter_congr
+  intro x _
+  cases startsWith pre x.key <;> simp
+
+private theorem walkCells_asc (store : List CellEntry) (pre : Bytes) (argsLen : Nat) (limit : Nat)
+    (f : CellFilter) (fot : Bool) (fuel : Nat) (hs : StrictSorted (store.map (·.key)))
+    (hl : 1 ≤ limit) (hfuel : store.length + 1 ≤ fuel) :
+    walkCells store pre argsLen .asc limit f fot fuel none = matchingCells store pre f fot := by
+  rw [walkCells_eq, matchingCells_eq]
+  exact walk_asc (sortedBy_of_strictSorted hs) hl hfuel
+
+/-- **C13 (pages partition the matching cells).**  For every store, search prefix, order, page
+size `≥ 1` and filter: following `last_cursor` until an empty page yields every matching entry
+exactly once, in key order (ascending) or reverse key order (descending). -/
+theorem cells_pages_partition (store : List CellEntry) (pre : Bytes) (argsLen : Nat)
+    (order : Order) (limit : Nat) (f : CellFilter) (fot : Bool) (fuel : Nat)
+    (hs : StrictSorted (store.map (·.key))) (hw : WellFormed (store.map (·.key)))
+    (hpre : ∀ b ∈ pre, b < 256)
+    (hd : FitsDescStart (store.map (·.key)) pre argsLen)
+    (hl : 1 ≤ limit) (hfuel : store.length + 1 ≤ fuel) :
+    walkCells store pre argsLen order limit f fot fuel none =
+      (match order with
+       | .asc => matchingCells store pre f fot
+       | .desc => (matchingCells store pre f fot).reverse) := by
+  cases order with
+  | asc => exact walkCells_asc store pre argsLen limit f fot fuel hs hl hfuel
+  | desc =>
+    show walkCells store pre argsLen .desc limit f fot fuel none = _
+    rw [walkCells_eq, matchingCells_eq]
+    exact walk_desc (sortedBy_of_strictSorted hs) hl hfuel (fit_of_hyps hw hd)
+
+/-- **C13 (descending is the reverse of ascending).** -/
+theorem cells_desc_is_reverse (store : List CellEntry) (pre : Bytes) (argsLen : Nat)
+    (limit limit' : Nat) (f : CellFilter) (fot : Bool) (fuel fuel' : Nat)
+    (hs : StrictSorted (store.map (·.key))) (hw : WellFormed (store.map (·.key)))
+    (hpre : ∀ b ∈ pre, b < 256)
+    (hd : FitsDescStart (store.map (·.key)) pre argsLen)
+    (hl : 1 ≤ limit) (hl' : 1 ≤ limit')
+    (hfuel : store.length + 1 ≤ fuel) (hfuel' : store.length + 1 ≤ fuel') :
+    walkCells store pre argsLen .desc limit f fot fuel none =
+      (walkCells store pre argsLen .asc limit' f fot fuel' none).reverse := by
+  rw [cells_pages_partition store pre argsLen .desc limit f fot fuel hs hw hpre hd hl hfuel,
+    cells_pages_partition store pre argsLen .asc limit' f fot fuel' hs hw hpre hd hl' hfuel']
+
+/-- **C13 (capacity).**  `get_cells_capacity` is the capacity sum of exactly the cells that
+`get_cells` returns for the same key (over all pages, any page size). -/
+theorem capacity_eq_sum (store : List CellEntry) (pre : Bytes) (argsLen : Nat) (limit : Nat)
+    (f : CellFilter) (fot : Bool) (fuel : Nat)
+    (hs : StrictSorted (store.map (·.key))) (hw : WellFormed (store.map (·.key)))
+    (hpre : ∀ b ∈ pre, b < 256)
+    (hl : 1 ≤ limit) (hfuel : store.length + 1 ≤ fuel) :
+    getCellsCapacity store pre argsLen f fot =
+      ((walkCells store pre argsLen .asc limit f fot fuel none).map (·.capacity)).sum := by
+  rw [walkCells_asc store pre argsLen limit f fot fuel hs hl hfuel, matchingCells_eq]
+  show (((scan (·.key) store pre pre .asc 0).filter _).map (·.capacity)).sum = _
+  rw [scan_asc_none (sortedBy_of_strictSorted hs), List.filter_filter]
 
 /-- the same for `get_transactions` (ungrouped) -/
 def matchingTxs (store : List TxEntry) (allKeys : List Bytes) (pre : Bytes) (f : TxFilter) :
@@ -50,8 +157,113 @@ def walkTxs (store : List TxEntry) (allKeys : List Bytes) (pre : Bytes) (argsLen
     let p := getTxs store allKeys pre argsLen order limit after f
     if p.objects.isEmpty then [] else p.objects ++ walkTxs store allKeys pre argsLen order limit f fuel (some p.lastCursor)
 
+private theorem walkTxs_eq (store : List TxEntry) (allKeys : List Bytes) (pre : Bytes)
+    (argsLen : Nat) (order : Order) (limit : Nat) (f : TxFilter) (fuel : Nat)
+    (after : Option Bytes) :
+    walkTxs store allKeys pre argsLen order limit f fuel after =
+      walk (·.key) store pre argsLen order limit
+        (fun e => longEnough pre TX_KEY_SUFFIX_LEN e.key && txPasses allKeys f e) fuel after := by
+  induction fuel generalizing after with
+  | zero => rfl
+  | succ fuel ih =>
+    unfold walkTxs walk
+    simp only [getTxs_eq, ih]
 
+private theorem matchingTxs_eq (store : List TxEntry) (allKeys : List Bytes) (pre : Bytes)
+    (f : TxFilter) :
+    matchingTxs store allKeys pre f =
+      store.filter (fun e => (longEnough pre TX_KEY_SUFFIX_LEN e.key && txPasses allKeys f e) &&
+        startsWith pre e.key) := by
+  unfold matchingTxs
+  apply List.filter_congr
+  intro x _
+  cases startsWith pre x.key <;> simp
 
+/-- **C13 (pages partition the matching history entries).** -/
+theorem txs_pages_partition (store : List TxEntry) (allKeys : List Bytes) (pre : Bytes)
+    (argsLen : Nat) (order : Order) (limit : Nat) (f : TxFilter) (fuel : Nat)
+    (hs : StrictSorted (store.map (·.key))) (hw : WellFormed (store.map (·.key)))
+    (hpre : ∀ b ∈ pre, b < 256)
+    (hd : FitsDescStart (store.map (·.key)) pre argsLen)
+    (hl : 1 ≤ limit) (hfuel : store.length + 1 ≤ fuel) :
+    walkTxs store allKeys pre argsLen order limit f fuel none =
+      (match order with
+       | .asc => matchingTxs store allKeys pre f
+       | .desc => (matchingTxs store allKeys pre f).reverse) := by
+  rw [walkTxs_eq, matchingTxs_eq]
+  cases order with
+  | asc => exact walk_asc (sortedBy_of_strictSorted hs) hl hfuel
+  | desc => exact walk_desc (sortedBy_of_strictSorted hs) hl hfuel (fit_of_hyps hw hd)
+
+/-- **C13 (grouped = ungrouped grouped by transaction, one page).**  Flattening the groups of a
+grouped page gives a prefix of the matching entries of the scan, every group is non-empty and
+holds entries of one transaction, adjacent groups belong to different transactions, and there
+are at most `limit` groups. -/
+theorem grouped_page (store : List TxEntry) (allKeys : List Bytes) (pre : Bytes) (argsLen : Nat)
+    (order : Order) (limit : Nat) (after : Option Bytes) (f : TxFilter) (hl : 1 ≤ limit) :
+    let p := getTxsGrouped store allKeys pre argsLen order limit after f
+    let (from_, skip) := queryStart pre argsLen order after
+    let scanned := (scan (·.key) store pre from_ order skip).filter
+      (fun e => longEnough pre TX_KEY_SUFFIX_LEN e.key && txPasses allKeys f e)
+    p.objects.flatten <+: scanned ∧
+    p.objects.length ≤ limit ∧
+    (∀ g ∈ p.objects, g ≠ [] ∧ ∀ a ∈ g, ∀ b ∈ g, a.txHash = b.txHash) ∧
+    (p.objects.length < limit → p.objects.flatten = scanned) := by
+  intro p
+  have hp : p = getTxsGrouped store allKeys pre argsLen order limit after f := rfl
+  clear_value p
+  unfold getTxsGrouped at hp
+  generalize queryStart pre argsLen order after = qs at hp ⊢
+  obtain ⟨from_, skip⟩ := qs
+  simp only at hp ⊢
+  have inv := groupLoop_inv allKeys f pre limit (scan (·.key) store pre from_ order skip) [] []
+    (Nat.zero_le _) (by intro g hg; simp at hg)
+  generalize groupLoop allKeys f pre limit (scan (·.key) store pre from_ order skip) [] [] = r
+    at hp inv
+  obtain ⟨out, last⟩ := r
+  simp only at hp inv
+  obtain ⟨h1, h2, X, h3, h4, h5⟩ := inv
+  subst hp
+  have hflat : ((out.map List.reverse).reverse).flatten = X := by
+    have : flat out = X := by rw [h3]; simp [flat]
+    exact this
+  simp only
+  refine ⟨by rw [hflat]; exact h4, by simpa using h1, ?_, ?_⟩
+  · intro g hg
+    have hg' : g.reverse ∈ out := by
+      simp only [List.mem_reverse, List.mem_map] at hg
+      obtain ⟨a, ha, rfl⟩ := hg
+      simpa using ha
+    obtain ⟨hne, hsame⟩ := h2 _ hg'
+    refine ⟨by simpa using hne, ?_⟩
+    intro a ha b hb
+    exact hsame a (by simpa using ha) b (by simpa using hb)
+  · intro hlt
+    rw [hflat]
+    exact h5 (by simpa using hlt)
+
+/-- **C13 (the search prefix is matched against the script, not against the key).**  For a key
+of the stored shape `[keyspace] ++ script ++ suffix` (suffix of the fixed length) an entry is
+selected by a search for `want` iff the *script* starts with `want`. -/
+theorem prefix_exact (ks : Nat) (script want suffix : Bytes) (n : Nat) (hn : suffix.length = n) :
+    (startsWith ([ks] ++ want) ([ks] ++ script ++ suffix) = true ∧
+      longEnough ([ks] ++ want) n ([ks] ++ script ++ suffix) = true) ↔
+    startsWith want script = true := by
+  have hlen : longEnough ([ks] ++ want) n ([ks] ++ script ++ suffix) = true ↔
+      want.length ≤ script.length := by
+    simp only [longEnough, List.length_append, List.length_cons, List.length_nil, hn,
+      decide_eq_true_eq]
+    omega
+  have hsw : startsWith ([ks] ++ want) ([ks] ++ script ++ suffix) =
+      startsWith want (script ++ suffix) := by
+    simp [startsWith]
+  rw [hlen, hsw]
+  constructor
+  · rintro ⟨h1, h2⟩
+    rwa [startsWith_append_right suffix h2] at h1
+  · intro h
+    have h2 := startsWith_length h
+    exact ⟨by rwa [startsWith_append_right suffix h2], h2⟩
 
 /-- Without the length test the statement fails (the defect fixed in `service.rs`): the key of
 script `a1` in block 2 starts with the prefix of script `a1 00`. -/
